@@ -103,13 +103,13 @@ CHECKS["C14"] = {
 CHECKS["C15"] = {
     "script": "c15.py", "category": "model_checking",
     "technique": "stateless model checking of the real Peers/connectLoop/WebRTCPeer.Close under a controlled scheduler (DPOR + sleep sets, virtual time) + enumeration of constructor failure kinds with real pion",
-    "text": U + " of connectLoop, a popping data path, peers closing on their own and one or two End callers for max in {1,2(,3)} x scripted Catch outcomes {now, 3 s, error, error after 3 s}; oracle: live peers <= max, Pop never returns a peer whose Close completed before the call, every End returns and never panics, no Catch begins after End returned, no Catch begins once an earlier one has ended after the stop, connectLoop stops, all peers closed. Plus NewWebRTCPeerWithEvents (real pion) over 6 ICE configurations x 20 rendezvous failures with a listener that renders every event like the client program's and SnowflakeConn.Close once/twice/three times/concurrently x {healthy, session dead, stream closed, packet conn closed, collection ended} on a real KCP+smux session with postconditions (collection stopped, no peer held, session and packet conn closed); a broker that accepts the connection and never answers (every rendezvous variant): Negotiate gives up within 60 s.",
+    "text": U + " of connectLoop, a popping data path, peers closing on their own and one or two End callers for max in {1,2(,3)} x scripted Catch outcomes {now, 3 s, error, error after 3 s}; oracle: live peers <= max, Pop never returns a peer whose Close completed before the call, every End returns and never panics, no Catch begins after End returned, no Catch begins once an earlier one has ended after the stop, a rendezvous begins within ReconnectTimeout after the peers went away on their own, connectLoop stops, all peers closed. Plus NewWebRTCPeerWithEvents (real pion) over 6 ICE configurations x 20 rendezvous failures with a listener that renders every event like the client program's and SnowflakeConn.Close once/twice/three times/concurrently x {healthy, session dead, stream closed, packet conn closed, collection ended} on a real KCP+smux session with postconditions (collection stopped, no peer held, session and packet conn closed); a broker that accepts the connection and never answers (every rendezvous variant): Negotiate gives up within 60 s.",
     "design_ref": "§3 C15", "note": SCHED_NOTE + " Peers in the scheduled harness carry no pion objects (as in the repository's own tests); process exit status is not decided.",
 }
 CHECKS["C19"] = {
     "script": "c19.py", "category": "model_checking",
     "technique": "exhaustive interleaving exploration of the rounded counter's atomic operations with a brute-force linearizability check; driven-traffic enumeration through the real IPC calls under virtual time; exhaustive binning check; journal enumeration with an injected clock",
-    "text": "roundedCounter: base in {0,7,8} x 2-3 threads x 1-2 Inc + a reader, every interleaving with <=3 (4) preemptions, no reduction, history linearizable w.r.t. 'n++; read=ceil8(n)' and final value = ceil8(total); metrics log lines and rounded prometheus counters after n in {0,1,7,8,9,16,17} events of 9 kinds (two of them alternating sub-kinds, so that total lines differ from their parts), then {0,1,9} events in the next period (the broker's own ticker prints and zeroes on virtual time); binCount(n) for all n <= 2^20; unique-address, per-country and per-NAT figures for all poll sequences <=2 (3) over 3 addresses x 5 types x 2 NATs followed by a second period {nobody, the first proxy again, a new proxy + the first}; journal: chunkings of sets of size 0..64 into <=3 overlapping chunks x all windows on chunk edges +-1 ns (exact), 10^3 and 10^5 addresses (within 2 %), no address text in the file.",
+    "text": "roundedCounter: base in {0,7,8} x 2-3 threads x 1-2 Inc + a reader, every interleaving with <=3 (4) preemptions, no reduction, history linearizable w.r.t. 'n++; read=ceil8(n)' and final value = ceil8(total); metrics log lines and rounded prometheus counters after n in {0,1,7,8,9,16,17} events of 9 kinds (two of them alternating sub-kinds, so that total lines differ from their parts), then {0,1,9} events in the next period (the broker's own ticker prints and zeroes on virtual time); binCount(n) for all n <= 2^20; unique-address, per-country and per-NAT figures for all poll sequences <=2 (3) over 3 addresses x 5 types x 2 NATs followed by a second period {nobody, the first proxy again, a new proxy + the first}; journal: chunkings of sets of size 0..64 into <=3 overlapping chunks x every order of the journal's lines x all windows on chunk edges +-1 ns (exact), 10^3 and 10^5 addresses (within 2 %), no address text in the file.",
     "design_ref": "§3 C19", "note": SCHED_NOTE + " Linearizability is checked by brute force over the recorded call/return history instead of porcupine (histories have <= 8 operations). Journal: also with a flush failing once; every chunk must cover the moments at which its addresses were recorded.",
 }
 CHECKS["C20"] = {
